@@ -1,4 +1,589 @@
-//! C09 — stub, replaced when the property's harness lands.
-use crate::util::{Em, Rng};
+//! C09 — k-means: nearest-centroid assignment, Lloyd step, budgets, restarts.
+//!
+//! Ops (model counterpart in `lean/LinfaSpec/Drv/C09.lean`):
+//!   closest  metric C x            hook `closest_centroid`
+//!   update   C X mem               hook `compute_centroids`
+//!   fit      metric X init m tol Q public API (`Precomputed`, `n_runs(1)`), then predict/transform on X++Q
+//!   traj     metric X init M tol   public API for budgets 1..M from one initial matrix
+//!   restarts metric X inits k m tol  public API with a random initialiser and `n_runs(r)`, r = 1..R;
+//!                                  the initial matrices of the runs are observed through the hook `init_run`
+//!   #f32     …                     oracle only (f32 records)
+//! Everything numeric is sent as IEEE bit patterns; centroids, distances, memberships and counts are
+//! compared exactly: the model performs the same operations in the same order, including the
+//! eight-fold unrolled `ndarray::sum` behind the inertia, so the restart selection is exact too.
+use crate::util::*;
+use linfa::traits::{Fit, Predict, Transformer};
+use linfa::DatasetBase;
+use linfa_clustering::verif_hooks_c09 as hooks;
+use linfa_clustering::{KMeans, KMeansInit};
+use linfa_nn::distance::{Distance, L1Dist, L2Dist, LInfDist};
+use ndarray::{Array1, Array2, Axis};
+use rand::SeedableRng;
+use rand_xoshiro::Xoshiro256Plus;
 
-pub fn run(_em: &mut Em, _rng: &mut Rng) {}
+#[derive(Clone, Copy, PartialEq, Debug)]
+enum Metric {
+    L1,
+    L2,
+    Linf,
+}
+impl Metric {
+    fn name(self) -> &'static str {
+        match self {
+            Metric::L1 => "l1",
+            Metric::L2 => "l2",
+            Metric::Linf => "linf",
+        }
+    }
+    /// reduced distance, written out from the definition
+    fn rd(self, a: &[f64], b: &[f64]) -> f64 {
+        match self {
+            Metric::L2 => a.iter().zip(b).fold(0.0, |s, (x, y)| s + (x - y) * (x - y)),
+            Metric::L1 => a.iter().zip(b).fold(0.0, |s, (x, y)| s + (x - y).abs()),
+            Metric::Linf => a.iter().zip(b).fold(0.0, |s: f64, (x, y)| if (x - y).abs() > s { (x - y).abs() } else { s }),
+        }
+    }
+}
+const METRICS: [Metric; 3] = [Metric::L2, Metric::L1, Metric::Linf];
+
+fn mat(rows: &[Vec<f64>]) -> Array2<f64> {
+    let p = rows.first().map(|r| r.len()).unwrap_or(0);
+    Array2::from_shape_fn((rows.len(), p), |(i, j)| rows[i][j])
+}
+fn rows_of(a: &Array2<f64>) -> Vec<Vec<f64>> {
+    a.rows().into_iter().map(|r| r.to_vec()).collect()
+}
+fn show_mat(rows: &[Vec<f64>]) -> String {
+    list2(rows.iter().map(|r| r.iter()), |x| hex64(*x))
+}
+fn show_count(c: f64) -> String {
+    if c.is_finite() && c >= 0.0 && c.fract() == 0.0 {
+        format!("{}", c as u64)
+    } else {
+        format!("?{}", hex64c(c))
+    }
+}
+
+/// what one call of the public API yields
+struct FitOut {
+    centroids: Vec<Vec<f64>>,
+    counts: Vec<f64>,
+    inertia: f64,
+    pred: Vec<usize>,
+    tr: Vec<f64>,
+}
+
+#[derive(Clone)]
+enum Init {
+    Pre(Array2<f64>),
+    Random,
+    Kpp,
+    Para,
+}
+impl Init {
+    fn to_linfa(&self) -> KMeansInit<f64> {
+        match self {
+            Init::Pre(c) => KMeansInit::Precomputed(c.clone()),
+            Init::Random => KMeansInit::Random,
+            Init::Kpp => KMeansInit::KMeansPlusPlus,
+            Init::Para => KMeansInit::KMeansPara,
+        }
+    }
+    fn name(&self) -> &'static str {
+        match self {
+            Init::Pre(_) => "precomputed",
+            Init::Random => "random",
+            Init::Kpp => "kmeans++",
+            Init::Para => "kmeans||",
+        }
+    }
+}
+
+fn fit_with<D: Distance<f64>>(d: D, k: usize, x: &Array2<f64>, q: &Array2<f64>, init: &Init, runs: usize, m: u64, tol: f64, seed: u64) -> Option<FitOut> {
+    let ds = DatasetBase::from(x.clone());
+    let model = KMeans::params_with(k, Xoshiro256Plus::seed_from_u64(seed), d).n_runs(runs).max_n_iterations(m).tolerance(tol).init_method(init.to_linfa()).fit(&ds);
+    let model = match model {
+        Ok(m) => m,
+        Err(_) => return None,
+    };
+    let all = if q.nrows() > 0 { ndarray::concatenate(Axis(0), &[x.view(), q.view()]).unwrap() } else { x.clone() };
+    let pred: Array1<usize> = model.predict(&all);
+    let tr: Array1<f64> = model.transform(&all);
+    Some(FitOut { centroids: rows_of(model.centroids()), counts: model.cluster_count().to_vec(), inertia: model.inertia(), pred: pred.to_vec(), tr: tr.to_vec() })
+}
+fn fit_api(metric: Metric, k: usize, x: &Array2<f64>, q: &Array2<f64>, init: &Init, runs: usize, m: u64, tol: f64, seed: u64) -> Option<FitOut> {
+    match metric {
+        Metric::L2 => fit_with(L2Dist, k, x, q, init, runs, m, tol, seed),
+        Metric::L1 => fit_with(L1Dist, k, x, q, init, runs, m, tol, seed),
+        Metric::Linf => fit_with(LInfDist, k, x, q, init, runs, m, tol, seed),
+    }
+}
+fn inits_with<D: Distance<f64>>(d: D, k: usize, x: &Array2<f64>, init: &Init, runs: usize, seed: u64) -> Vec<Array2<f64>> {
+    // `fit` clones the rng once and calls the initialiser once per run; nothing else draws from it
+    let mut rng = Xoshiro256Plus::seed_from_u64(seed);
+    let li = init.to_linfa();
+    (0..runs).map(|_| hooks::init_run(&li, &d, k, x.view(), &mut rng)).collect()
+}
+fn inits_api(metric: Metric, k: usize, x: &Array2<f64>, init: &Init, runs: usize, seed: u64) -> Vec<Array2<f64>> {
+    match metric {
+        Metric::L2 => inits_with(L2Dist, k, x, init, runs, seed),
+        Metric::L1 => inits_with(L1Dist, k, x, init, runs, seed),
+        Metric::Linf => inits_with(LInfDist, k, x, init, runs, seed),
+    }
+}
+
+fn bbox(x: &[Vec<f64>]) -> Vec<(f64, f64)> {
+    let p = x[0].len();
+    (0..p).map(|j| x.iter().fold((f64::INFINITY, f64::NEG_INFINITY), |(lo, hi), r| (lo.min(r[j]), hi.max(r[j])))).collect()
+}
+fn in_bbox(bb: &[(f64, f64)], c: &[Vec<f64>]) -> bool {
+    c.iter().all(|r| {
+        r.iter().zip(bb).all(|(v, (lo, hi))| {
+            let slack = 1e-12 * (lo.abs().max(hi.abs())) + 1e-300;
+            *v >= lo - slack && *v <= hi + slack
+        })
+    })
+}
+/// Σ over rows of the distance to the nearest centroid
+fn cost_of(metric: Metric, c: &[Vec<f64>], x: &[Vec<f64>]) -> f64 {
+    x.iter().map(|r| c.iter().map(|cc| metric.rd(cc, r)).fold(f64::INFINITY, f64::min)).sum()
+}
+
+/// the clauses of the statement that speak about one fitted model
+fn oracle_fitted(ctx: &mut Ctx, class: &str, metric: Metric, k: usize, x: &[Vec<f64>], q: &[Vec<f64>], o: &FitOut, init_in_bbox: bool) {
+    let n = x.len();
+    let p = x[0].len();
+    ctx.require(o.centroids.len() == k && o.centroids.iter().all(|r| r.len() == p), "k_centroids_dim", class, || format!("{} centroids for k={} p={}", o.centroids.len(), k, p));
+    ctx.require(o.centroids.iter().flatten().all(|v| v.is_finite()), "finite", class, || format!("centroids {:?}", o.centroids));
+    if init_in_bbox {
+        let bb = bbox(x);
+        ctx.require(in_bbox(&bb, &o.centroids), "centroids_in_bbox", class, || format!("centroids {:?} outside the bounding box {:?}", o.centroids, bb));
+    }
+    let all: Vec<&Vec<f64>> = x.iter().chain(q.iter()).collect();
+    ctx.require(o.pred.len() == all.len() && o.tr.len() == all.len(), "per_row_output", class, || format!("{} predictions / {} distances for {} rows", o.pred.len(), o.tr.len(), all.len()));
+    for (i, r) in all.iter().enumerate().take(o.pred.len().min(o.tr.len())) {
+        let ds: Vec<f64> = o.centroids.iter().map(|c| metric.rd(c, r)).collect();
+        let dmin = ds.iter().cloned().fold(f64::INFINITY, f64::min);
+        let a = o.pred[i];
+        ctx.require(a < k && ds[a] <= dmin, "assign_is_argmin", class, || format!("row {} {:?} ({}): assigned {} at {:?}, minimum {:?} (all {:?})", i, r, if i < n { "training" } else { "new" }, a, ds.get(a), dmin, ds));
+        ctx.require(o.tr[i] == dmin, "transform_is_min_rdist", class, || format!("row {} {:?}: transform {:?}, minimal reduced distance {:?}", i, r, o.tr[i], dmin));
+    }
+    let mut recount = vec![0.0f64; k];
+    for a in o.pred.iter().take(n) {
+        if *a < k {
+            recount[*a] += 1.0;
+        }
+    }
+    ctx.require(o.counts.iter().sum::<f64>() == n as f64, "counts_sum_n", class, || format!("cluster_count {:?} for n={}", o.counts, n));
+    // the count of a cluster may legitimately differ from `predict` only through a tie between two
+    // *identical* distances; predict and fit use the same scan, so even then they agree
+    ctx.require(o.counts == recount, "counts_describe_returned", class, || format!("cluster_count {:?}, but the returned centroids assign {:?}", o.counts, recount));
+    let want = o.tr.iter().take(n).sum::<f64>() / n as f64;
+    ctx.require((o.inertia - want).abs() <= 1e-9 * want.abs().max(o.inertia.abs()) + 1e-300, "inertia_describes_returned", class, || format!("inertia {:?}, but the returned centroids have mean minimal distance {:?}", o.inertia, want));
+}
+
+fn show_fitted(o: &Option<FitOut>) -> String {
+    match o {
+        None => "err".to_string(),
+        Some(o) => format!("C={} n={} in={}", show_mat(&o.centroids), list(o.counts.iter(), |c| show_count(*c)), hex64c(o.inertia)),
+    }
+}
+
+// ------------------------------------------------------------------------------ generators
+
+struct Data {
+    x: Vec<Vec<f64>>,
+    kind: &'static str,
+}
+
+fn gen_data(rng: &mut Rng, big: bool) -> Data {
+    let kinds = ["lattice", "dyadic", "dups", "fewdistinct", "onefeature", "blobs", "cloud", "scaled"];
+    let kind = *rng.pick(&kinds);
+    let nmax = if big { 40 } else { 12 };
+    let n = 1 + rng.below(nmax);
+    let p = if kind == "onefeature" { 1 } else { 1 + rng.below(3) };
+    let x: Vec<Vec<f64>> = match kind {
+        "lattice" | "onefeature" => (0..n).map(|_| (0..p).map(|_| rng.range(-4, 4) as f64).collect()).collect(),
+        "dyadic" => (0..n).map(|_| (0..p).map(|_| rng.range(-16, 16) as f64 / 4.0).collect()).collect(),
+        "dups" | "fewdistinct" => {
+            let d = 1 + rng.below(3);
+            let base: Vec<Vec<f64>> = (0..d).map(|_| (0..p).map(|_| rng.range(-3, 3) as f64).collect()).collect();
+            (0..n).map(|_| base[rng.below(d)].clone()).collect()
+        }
+        "blobs" => {
+            let b = 1 + rng.below(3);
+            let cen: Vec<Vec<f64>> = (0..b).map(|_| (0..p).map(|_| 10.0 * rng.range(-3, 3) as f64).collect()).collect();
+            (0..n).map(|i| cen[i % b].iter().map(|c| c + rng.unit() - 0.5).collect()).collect()
+        }
+        "cloud" => (0..n).map(|_| (0..p).map(|_| 2.0 * rng.unit() - 1.0).collect()).collect(),
+        _ => {
+            let s = 10f64.powf(12.0 * rng.unit() - 6.0);
+            let off = if rng.coin() { 0.0 } else { s * rng.range(-100, 100) as f64 };
+            (0..n).map(|_| (0..p).map(|_| off + s * (2.0 * rng.unit() - 1.0)).collect()).collect()
+        }
+    };
+    Data { x, kind }
+}
+
+fn gen_k(rng: &mut Rng, d: &Data) -> usize {
+    let n = d.x.len();
+    if d.kind == "fewdistinct" {
+        // more clusters than distinct points whenever n allows
+        return n.min(2 + rng.below(3)).max(1);
+    }
+    1 + rng.below(n.min(4))
+}
+
+/// precomputed initial matrix: data rows (in the bounding box) or arbitrary lattice points
+fn gen_init(rng: &mut Rng, d: &Data, k: usize) -> (Vec<Vec<f64>>, &'static str) {
+    let n = d.x.len();
+    let p = d.x[0].len();
+    match rng.below(5) {
+        0 | 1 => ((0..k).map(|_| d.x[rng.below(n)].clone()).collect(), "rows"),
+        2 => {
+            let mut idx: Vec<usize> = (0..n).collect();
+            rng.shuffle(&mut idx);
+            ((0..k).map(|i| d.x[idx[i % n]].clone()).collect(), "rows_distinct")
+        }
+        3 => {
+            let r = d.x[rng.below(n)].clone();
+            ((0..k).map(|_| r.clone()).collect(), "one_row_k_times")
+        }
+        _ => ((0..k).map(|_| (0..p).map(|_| rng.range(-6, 6) as f64).collect()).collect(), "free_lattice"),
+    }
+}
+
+fn gen_tol(rng: &mut Rng) -> f64 {
+    *rng.pick(&[1e-4, 1e-4, 1e-9, 1e-2, 0.5, 8.5])
+}
+
+fn gen_queries(rng: &mut Rng, d: &Data, cs: &[Vec<f64>]) -> Vec<Vec<f64>> {
+    let p = d.x[0].len();
+    let nq = rng.below(5);
+    (0..nq)
+        .map(|_| match rng.below(4) {
+            // midpoint of two initial centroids (a tie before the first update), a data row, a far point, a lattice point
+            0 if cs.len() >= 2 => {
+                let a = &cs[rng.below(cs.len())];
+                let b = &cs[rng.below(cs.len())];
+                a.iter().zip(b).map(|(u, v)| (u + v) / 2.0).collect()
+            }
+            1 => d.x[rng.below(d.x.len())].clone(),
+            2 => (0..p).map(|_| 1e3 * rng.range(-3, 3) as f64).collect(),
+            _ => (0..p).map(|_| rng.range(-5, 5) as f64 / 2.0).collect(),
+        })
+        .collect()
+}
+
+// ------------------------------------------------------------------------------ ops
+
+fn op_closest(em: &mut Em, metric: Metric, cs: Vec<Vec<f64>>, x: Vec<f64>) {
+    let op = format!("closest metric={} C={} x={}", metric.name(), show_mat(&cs), list(x.iter(), |v| hex64(*v)));
+    let class = format!("closest:metric={}", metric.name());
+    em.case_valid(op, &class, |ctx| {
+        let c = mat(&cs);
+        let xv = Array1::from(x.clone());
+        let (i, d) = match metric {
+            Metric::L2 => hooks::closest_centroid_of(&L2Dist, &c, xv.view()),
+            Metric::L1 => hooks::closest_centroid_of(&L1Dist, &c, xv.view()),
+            Metric::Linf => hooks::closest_centroid_of(&LInfDist, &c, xv.view()),
+        };
+        let ds: Vec<f64> = cs.iter().map(|r| metric.rd(r, &x)).collect();
+        let dmin = ds.iter().cloned().fold(f64::INFINITY, f64::min);
+        ctx.require(i < cs.len() && ds[i] <= dmin, "assign_is_argmin", &class, || format!("index {} at {:?}, minimum {:?} of {:?}", i, ds.get(i), dmin, ds));
+        ctx.require(d == dmin, "transform_is_min_rdist", &class, || format!("returned {:?}, minimum {:?}", d, dmin));
+        format!("ok {} {}", i, hex64c(d))
+    });
+}
+
+fn op_update(em: &mut Em, cs: Vec<Vec<f64>>, x: Vec<Vec<f64>>, mem: Vec<usize>) {
+    let op = format!("update C={} X={} mem={}", show_mat(&cs), show_mat(&x), list(mem.iter(), |v| v.to_string()));
+    em.case_valid(op, "update", |ctx| {
+        let out = rows_of(&hooks::compute_centroids_of(&mat(&cs), &mat(&x), &Array1::from(mem.clone())));
+        let p = cs[0].len();
+        for (j, c) in cs.iter().enumerate() {
+            let rows: Vec<&Vec<f64>> = x.iter().zip(&mem).filter(|(_, m)| **m == j).map(|(r, _)| r).collect();
+            for t in 0..p {
+                let want = (rows.iter().map(|r| r[t]).sum::<f64>() + c[t]) / (rows.len() as f64 + 1.0);
+                let got = out[j][t];
+                ctx.require((got - want).abs() <= 1e-12 * want.abs().max(1e-300) * (rows.len() as f64 + 1.0), "update_is_mean_with_old", "update", || format!("cluster {} coordinate {}: {:?}, mean of members and old centroid {:?}", j, t, got, want));
+            }
+        }
+        format!("ok {}", show_mat(&out))
+    });
+}
+
+fn op_fit(em: &mut Em, metric: Metric, d: &Data, init: Vec<Vec<f64>>, ikind: &str, m: u64, tol: f64, q: Vec<Vec<f64>>) {
+    let k = init.len();
+    let op = format!("fit metric={} X={} init={} m={} tol={} Q={}", metric.name(), show_mat(&d.x), show_mat(&init), m, hex64(tol), show_mat(&q));
+    let class = format!("fit:metric={}:runs=1", metric.name());
+    em.count(&format!("fit:data={}", d.kind));
+    em.count(&format!("fit:init={}", ikind));
+    let x = d.x.clone();
+    em.case_valid(op, &class, |ctx| {
+        let xa = mat(&x);
+        let qa = if q.is_empty() { Array2::zeros((0, x[0].len())) } else { mat(&q) };
+        let o = fit_api(metric, k, &xa, &qa, &Init::Pre(mat(&init)), 1, m, tol, 0);
+        match &o {
+            None => {
+                ctx.fail("fit_succeeds", &class, "fit returned an error on finite data".to_string());
+                "err".to_string()
+            }
+            Some(f) => {
+                oracle_fitted(ctx, &class, metric, k, &x, &q, f, in_bbox(&bbox(&x), &init));
+                format!("ok {} pred={} tr={}", show_fitted(&o), list(f.pred.iter(), |v| v.to_string()), list(f.tr.iter(), |v| hex64c(*v)))
+            }
+        }
+    });
+}
+
+fn op_traj(em: &mut Em, metric: Metric, d: &Data, init: Vec<Vec<f64>>, mm: u64, tol: f64) {
+    let k = init.len();
+    let op = format!("traj metric={} X={} init={} M={} tol={}", metric.name(), show_mat(&d.x), show_mat(&init), mm, hex64(tol));
+    let class = format!("traj:metric={}", metric.name());
+    em.count(&format!("traj:data={}", d.kind));
+    let x = d.x.clone();
+    em.case_valid(op, &class, |ctx| {
+        let xa = mat(&x);
+        let qa = Array2::zeros((0, x[0].len()));
+        let inb = in_bbox(&bbox(&x), &init);
+        let mut parts = vec![];
+        let mut prev: Option<(u64, f64)> = None;
+        for m in 1..=mm {
+            let o = fit_api(metric, k, &xa, &qa, &Init::Pre(mat(&init)), 1, m, tol, 0);
+            if let Some(f) = &o {
+                oracle_fitted(ctx, &class, metric, k, &x, &[], f, inb);
+                let c = cost_of(metric, &f.centroids, &x);
+                if let Some((pm, pc)) = prev {
+                    // the cost of the returned centroids never increases when the budget grows
+                    ctx.require(c <= pc * (1.0 + 1e-12) + 1e-300, "cost_antitone_in_budget", &class, || format!("budget {} -> {}: within-cluster cost {:?} -> {:?} (centroids {:?})", pm, m, pc, c, f.centroids));
+                }
+                prev = Some((m, c));
+            } else {
+                ctx.fail("fit_succeeds", &class, format!("fit with budget {} returned an error", m));
+            }
+            parts.push(format!("m={} {}", m, show_fitted(&o)));
+        }
+        format!("ok {}", parts.join(" "))
+    });
+}
+
+fn op_restarts(em: &mut Em, pool: &rayon::ThreadPool, metric: Metric, d: &Data, k: usize, init: Init, rr: usize, m: u64, tol: f64, seed: u64) {
+    // the initial matrices are part of the request, so they are computed before the case is registered
+    let xa = mat(&d.x);
+    let inits: Vec<Array2<f64>> = std::panic::catch_unwind(std::panic::AssertUnwindSafe(|| pool.install(|| inits_api(metric, k, &xa, &init, rr, seed)))).unwrap_or_default();
+    let op = format!(
+        "restarts metric={} X={} inits={} k={} m={} tol={} init={} seed={}",
+        metric.name(),
+        show_mat(&d.x),
+        inits.iter().map(|c| show_mat(&rows_of(c))).collect::<Vec<_>>().join("|"),
+        k,
+        m,
+        hex64(tol),
+        init.name(),
+        seed
+    );
+    let class = format!("restarts:metric={}:init={}", metric.name(), init.name());
+    em.count(&format!("restarts:init={}", init.name()));
+    em.count(&format!("restarts:data={}", d.kind));
+    let x = d.x.clone();
+    em.case_valid(op, &class, |ctx| {
+        let qa = Array2::zeros((0, x[0].len()));
+        if inits.len() != rr {
+            ctx.fail("no_panic", &class, "the initialiser panicked on data with k <= n".to_string());
+            return "panic".to_string();
+        }
+        for c in &inits {
+            let all_rows = rows_of(c).iter().all(|r| x.iter().any(|d| d.iter().zip(r).all(|(a, b)| a.to_bits() == b.to_bits())));
+            ctx.require(all_rows && c.nrows() == k, "init_returns_data_rows", &class, || format!("initial centroids {:?} are not {} rows of the data", c, k));
+        }
+        let mut parts = vec![];
+        let mut prev: Option<f64> = None;
+        for r in 1..=rr {
+            let cls = format!("{}:runs={}", class, if r == 1 { "1" } else { "multi" });
+            let o = pool.install(|| fit_api(metric, k, &xa, &qa, &init, r, m, tol, seed));
+            if let Some(f) = &o {
+                oracle_fitted(ctx, &cls, metric, k, &x, &[], f, true);
+                if let Some(pi) = prev {
+                    ctx.require(f.inertia <= pi, "more_restarts_not_worse", &cls, || format!("n_runs {} -> {}: reported inertia {:?} -> {:?}", r - 1, r, pi, f.inertia));
+                }
+                prev = Some(f.inertia);
+            } else {
+                ctx.fail("fit_succeeds", &cls, format!("fit with n_runs {} returned an error", r));
+            }
+            parts.push(format!("r={} {}", r, show_fitted(&o)));
+        }
+        format!("ok {}", parts.join(" "))
+    });
+}
+
+/// f32 records: oracle only (the driver models f64)
+fn op_f32(em: &mut Em, metric: Metric, d: &Data, k: usize, init: Init, runs: usize, m: u64, seed: u64) {
+    let op = format!("#f32 metric={} n={} k={} init={} runs={} m={} seed={} kind={}", metric.name(), d.x.len(), k, init.name(), runs, m, seed, d.kind);
+    let class = format!("f32:metric={}:runs={}", metric.name(), if runs == 1 { "1" } else { "multi" });
+    let x32: Vec<Vec<f32>> = d.x.iter().map(|r| r.iter().map(|v| *v as f32).collect()).collect();
+    em.case_valid(op, &class, |ctx| {
+        let n = x32.len();
+        let p = x32[0].len();
+        let xa = Array2::from_shape_fn((n, p), |(i, j)| x32[i][j]);
+        let ds = DatasetBase::from(xa.clone());
+        let li: KMeansInit<f32> = match &init {
+            Init::Random => KMeansInit::Random,
+            Init::Kpp => KMeansInit::KMeansPlusPlus,
+            _ => KMeansInit::KMeansPara,
+        };
+        fn go<D: Distance<f32>>(dist: D, k: usize, ds: &DatasetBase<Array2<f32>, Array1<()>>, li: KMeansInit<f32>, runs: usize, m: u64, seed: u64, xa: &Array2<f32>) -> Option<(Array2<f32>, Vec<f32>, f32, Vec<usize>, Vec<f32>)> {
+            let model = KMeans::params_with(k, Xoshiro256Plus::seed_from_u64(seed), dist).n_runs(runs).max_n_iterations(m).init_method(li).fit(ds).ok()?;
+            let pred: Array1<usize> = model.predict(xa);
+            let tr: Array1<f32> = model.transform(xa);
+            Some((model.centroids().clone(), model.cluster_count().to_vec(), model.inertia(), pred.to_vec(), tr.to_vec()))
+        }
+        let r = match metric {
+            Metric::L2 => go(L2Dist, k, &ds, li, runs, m, seed, &xa),
+            Metric::L1 => go(L1Dist, k, &ds, li, runs, m, seed, &xa),
+            Metric::Linf => go(LInfDist, k, &ds, li, runs, m, seed, &xa),
+        };
+        let (c, counts, inertia, pred, tr) = match r {
+            Some(t) => t,
+            None => {
+                ctx.fail("fit_succeeds", &class, "fit returned an error on finite data".to_string());
+                return "-".to_string();
+            }
+        };
+        ctx.require(c.nrows() == k && c.ncols() == p && c.iter().all(|v| v.is_finite()), "k_centroids_dim", &class, || format!("centroids {:?}", c));
+        let rd = |a: &[f32], b: &[f32]| -> f32 {
+            match metric {
+                Metric::L2 => a.iter().zip(b).fold(0.0, |s, (x, y)| s + (x - y) * (x - y)),
+                Metric::L1 => a.iter().zip(b).fold(0.0, |s, (x, y)| s + (x - y).abs()),
+                Metric::Linf => a.iter().zip(b).fold(0.0, |s: f32, (x, y)| if (x - y).abs() > s { (x - y).abs() } else { s }),
+            }
+        };
+        let crow: Vec<Vec<f32>> = c.rows().into_iter().map(|r| r.to_vec()).collect();
+        let mut recount = vec![0.0f32; k];
+        let mut tot = 0.0f64;
+        for i in 0..n {
+            let dsv: Vec<f32> = crow.iter().map(|cc| rd(cc, &x32[i])).collect();
+            let dmin = dsv.iter().cloned().fold(f32::INFINITY, f32::min);
+            ctx.require(pred[i] < k && dsv[pred[i]] <= dmin, "assign_is_argmin", &class, || format!("row {}: assigned {} of {:?}", i, pred[i], dsv));
+            ctx.require(tr[i] == dmin, "transform_is_min_rdist", &class, || format!("row {}: transform {:?}, minimum {:?}", i, tr[i], dmin));
+            if pred[i] < k {
+                recount[pred[i]] += 1.0;
+            }
+            tot += dmin as f64;
+        }
+        for j in 0..p {
+            let (lo, hi) = x32.iter().fold((f32::INFINITY, f32::NEG_INFINITY), |(lo, hi), r| (lo.min(r[j]), hi.max(r[j])));
+            let slack = 1e-5 * lo.abs().max(hi.abs()) + 1e-30;
+            ctx.require(crow.iter().all(|r| r[j] >= lo - slack && r[j] <= hi + slack), "centroids_in_bbox", &class, || format!("coordinate {}: centroids {:?}, data range [{:?}, {:?}]", j, crow, lo, hi));
+        }
+        ctx.require(counts.iter().sum::<f32>() == n as f32, "counts_sum_n", &class, || format!("cluster_count {:?} for n={}", counts, n));
+        ctx.require(counts == recount, "counts_describe_returned", &class, || format!("cluster_count {:?}, but the returned centroids assign {:?}", counts, recount));
+        let want = tot / n as f64;
+        ctx.require((inertia as f64 - want).abs() <= 1e-4 * want.abs().max(inertia.abs() as f64) + 1e-30, "inertia_describes_returned", &class, || format!("inertia {:?}, but the returned centroids have mean minimal distance {:?}", inertia, want));
+        "-".to_string()
+    });
+}
+
+// ------------------------------------------------------------------------------ run
+
+pub fn run(em: &mut Em, rng: &mut Rng) {
+    let big = em.thorough();
+    let scale = if big { 12 } else { 1 };
+    let pool = rayon::ThreadPoolBuilder::new().num_threads(1).build().expect("rayon pool");
+
+    // the 1-D witness of DESIGN section 7 / 8 #7 first: {0,0,10}, one centroid at 0
+    for metric in METRICS {
+        let d = Data { x: vec![vec![0.0], vec![0.0], vec![10.0]], kind: "witness" };
+        op_traj(em, metric, &d, vec![vec![0.0]], 4, 1e-4);
+    }
+
+    // closest: exhaustive on a small 1-D lattice (ties and duplicated centroids everywhere)
+    let vals = [-1.0, 0.0, 1.0];
+    let xs = [-1.0, -0.5, 0.0, 0.5, 1.0];
+    for metric in METRICS {
+        for k in 1..=3usize {
+            for code in 0..3usize.pow(k as u32) {
+                let cs: Vec<Vec<f64>> = (0..k).map(|i| vec![vals[(code / 3usize.pow(i as u32)) % 3]]).collect();
+                for x in xs {
+                    op_closest(em, metric, cs.clone(), vec![x]);
+                }
+            }
+        }
+    }
+    // closest: random, lattice and generic
+    for _ in 0..300 * scale {
+        let d = gen_data(rng, big);
+        let k = 1 + rng.below(5);
+        let (cs, _) = gen_init(rng, &d, k);
+        let q = gen_queries(rng, &d, &cs);
+        let x = if q.is_empty() { d.x[0].clone() } else { q[0].clone() };
+        op_closest(em, *rng.pick(&METRICS), cs, x);
+    }
+    // update: arbitrary memberships (not only nearest ones), empty clusters included
+    for _ in 0..300 * scale {
+        let d = gen_data(rng, big);
+        let k = 1 + rng.below(4);
+        let (cs, _) = gen_init(rng, &d, k);
+        let used = 1 + rng.below(k);
+        let mem: Vec<usize> = (0..d.x.len()).map(|_| rng.below(used)).collect();
+        op_update(em, cs, d.x.clone(), mem);
+    }
+    // fit from a precomputed matrix, predict / transform on training and new rows
+    for _ in 0..800 * scale {
+        let d = gen_data(rng, big);
+        let k = gen_k(rng, &d);
+        let (init, ikind) = gen_init(rng, &d, k);
+        let q = gen_queries(rng, &d, &init);
+        let m = 1 + rng.below(if big { 12 } else { 6 }) as u64;
+        let metric = *rng.pick(&METRICS);
+        let mut tol = gen_tol(rng);
+        if rng.chance(1, 4) {
+            // tolerance exactly on the shift of the first iteration: `distance < tolerance` is then
+            // false by equality and the loop must go on
+            let c0 = mat(&init);
+            let first = std::panic::catch_unwind(std::panic::AssertUnwindSafe(|| fit_api(metric, k, &mat(&d.x), &Array2::zeros((0, d.x[0].len())), &Init::Pre(c0.clone()), 1, 1, 1e-4, 0))).unwrap_or(None);
+            if let Some(f) = first {
+                let a: Vec<f64> = init.iter().flatten().cloned().collect();
+                let b: Vec<f64> = f.centroids.iter().flatten().cloned().collect();
+                let shift = match metric {
+                    Metric::L2 => metric.rd(&a, &b).sqrt(),
+                    _ => metric.rd(&a, &b),
+                };
+                if shift > 0.0 && shift.is_finite() {
+                    tol = shift;
+                    em.count("fit:tol=first_shift_exactly");
+                }
+            }
+        }
+        op_fit(em, metric, &d, init, ikind, m, tol, q);
+    }
+    // trajectories
+    for _ in 0..300 * scale {
+        let d = gen_data(rng, big);
+        let k = gen_k(rng, &d);
+        let (init, _) = gen_init(rng, &d, k);
+        let mm = 2 + rng.below(if big { 10 } else { 5 }) as u64;
+        let metric = if rng.chance(1, 2) { Metric::L2 } else { *rng.pick(&METRICS) };
+        op_traj(em, metric, &d, init, mm, *rng.pick(&[1e-4, 1e-9, 1e-2]));
+    }
+    // restarts with the random initialisers
+    for _ in 0..300 * scale {
+        let d = gen_data(rng, big);
+        let k = gen_k(rng, &d);
+        let init = rng.pick(&[Init::Random, Init::Kpp, Init::Para]).clone();
+        let rr = 2 + rng.below(if big { 7 } else { 4 });
+        let m = 1 + rng.below(6) as u64;
+        let seed = rng.next() % 1000;
+        op_restarts(em, &pool, *rng.pick(&METRICS), &d, k, init, rr, m, gen_tol(rng), seed);
+    }
+    // f32
+    for _ in 0..80 * scale {
+        let d = gen_data(rng, big);
+        let k = gen_k(rng, &d);
+        let init = rng.pick(&[Init::Random, Init::Kpp, Init::Para]).clone();
+        let runs = 1 + rng.below(4);
+        let m = 1 + rng.below(8) as u64;
+        let seed = rng.next() % 1000;
+        op_f32(em, *rng.pick(&METRICS), &d, k, init, runs, m, seed);
+    }
+}
